@@ -2,6 +2,7 @@ import Gv.Proofs.BagRect3
 import Gv.Proofs.BagExt
 import Gv.Proofs.BagExt2
 import Gv.Proofs.BagExt3
+import Gv.Proofs.BagExt4
 /-! No operation other than `Unalign` changes the kind (alignment / plain sequence set) of a container, and
 `Unalign` only turns an alignment into a plain sequence set (C01). -/
 namespace Gv.Proofs.BagAbs
@@ -96,6 +97,23 @@ theorem isAlign_stepOp (b : Bag) (op : Op) (hne : op ≠ .unalign) : (stepOp b o
     · split
       · rfl
       · rename_i r hr; exact (sameShape_maskOccBag hr).isAlign
+  | rmCharSites cs num den ends ic ig iN rev =>
+    simp only [stepOp]
+    split
+    · rfl
+    · split
+      · rfl
+      · rename_i r hr
+        exact (cleanSitesBag_fields (isCleanFn_char _ cs ends ic ig iN rev) hr).2.2.2.1
+  | rmMajSites num den ends ig iN =>
+    simp only [stepOp]
+    split
+    · rfl
+    · split
+      · rfl
+      · rename_i r hr
+        exact (cleanSitesBag_fields (isCleanFn_maj _ ends ig iN) hr).2.2.2.1
+  | replaceRe ok seqs => simp only [stepOp]; split <;> rfl
   | add n s => exact isAlign_addSeqAs _ b n s
   | ignore p => rfl
   | clear => rfl
